@@ -25,7 +25,7 @@ RULE = (
 ASSUMPTIONS = ["docstrings are rendered by the harness, not by doctrans", "no positional-only parameters and no *args (quantifier text)"]
 CORE_ALLOWED = ()
 FRONTIER_KNOBS = ("partial_doc", "out_of_order", "kwarg_undocumented", "untyped_doc_entry", "name_default",
-                  "no_annotation_no_doctype", "untyped_with_default", "class_partial_kwarg", "inmemory_conflict", "inmemory_partial_kwarg", "inmemory_no_params")
+                  "no_annotation_no_doctype", "untyped_with_default", "class_partial_kwarg", "inmemory_conflict", "inmemory_partial_kwarg")
 FLOORS = {"inmemory": 0.1, "has_default": 0.3, "kind=method": 0.1, "kind=class_init": 0.1, "partial_doc_prefix": 0.05, "has_kwarg": 0.1}
 NAMES = domain.NAMES
 TYPES = ("int", "str", "float", "bool", "Optional[int]", "List[str]", "np.ndarray", "Literal['a', 'b']", "Union[int, float]")
@@ -60,7 +60,7 @@ def _case(draw, knob):
     if inmemory and kind == "method":
         kind = "function"
     first = None if kind == "function" else ("self" if kind == "class_init" else draw(st.sampled_from(("self", "cls"))))
-    n = draw(st.integers((1 if inmemory else 0) if knob is None else 2, 5))  # a live function without parameters: finding KF-U09
+    n = draw(st.integers(0 if knob is None else 2, 5))
     names = draw(st.lists(st.sampled_from(NAMES), min_size=n, max_size=n, unique=True))
     n_pos = draw(st.integers(0, n))
     k_def = draw(st.integers(0, n_pos))  # number of trailing positional parameters with a default
